@@ -11,6 +11,10 @@ func dump(what string) {
 		fmt.Println("load:", err)
 		return
 	}
+	if len(what) > 6 && what[:6] == "edges:" {
+		dumpEdges(p, what[6:])
+		return
+	}
 	switch what {
 	case "effects":
 		e := p.Effects()
@@ -50,6 +54,22 @@ func dump(what string) {
 		sort.Strings(names)
 		for _, n := range names {
 			fmt.Println(n)
+		}
+	}
+}
+
+func dumpEdges(p *Program, from string) {
+	cg := p.CallGraph()
+	for fn, n := range cg.Nodes {
+		if fn == nil || shortFunc(fn) != from {
+			continue
+		}
+		for _, e := range n.Out {
+			pos := "-"
+			if e.Site != nil {
+				pos = p.Pos(e.Site.Pos())
+			}
+			fmt.Printf("%s -> %s at %s\n", from, shortFunc(e.Callee.Func), pos)
 		}
 	}
 }
